@@ -54,7 +54,9 @@ Next == \/ /\ A = <<>>
         \/ /\ A # <<>> /\ B = <<>>
            /\ B' \in Ranges
            /\ A' = A
-           /\ (Emit => PrintT(<<"CASE", ToJson([op |-> "pair", A |-> A, B |-> B'])>>))
+           \* every pair is checked at design level; pairs of two multi-alternative operands are not executed against
+           \* the crate from here (176 400 of them for Alts = 2) - the seeded generators cover multi x multi
+           /\ ((Emit /\ (Len(A) = 1 \/ Len(B') = 1)) => PrintT(<<"CASE", ToJson([op |-> "pair", A |-> A, B |-> B'])>>))
 Spec == Init /\ [][Next]_vars
 
 Ready == B # <<>>
